@@ -42,6 +42,13 @@ def run(ctx):
         for d in shape:
             numel *= d
         x = torch.randn(shape, generator=g)
+        # the same values in another memory layout (reversed dimension order in storage; a stride-2 vector for rank 1)
+        if len(shape) == 1:
+            xn = torch.stack([x, -x], 1)[:, 0]
+        else:
+            rev = list(range(len(shape)))[::-1]
+            xn = x.permute(rev).contiguous().permute(rev)
+        assert torch.equal(x, xn)
         for qn in QNAMES:
             qt = q.qtypes[qn]
             for axis in (None, -2, -1, 0, 1, 2):
@@ -65,6 +72,21 @@ def run(ctx):
                         except Exception as ex:  # noqa
                             e = "err " + exc_name(ex)
                             ctx.spec_failures.append((f"C14:wrong-exception:quantize_weight:{exc_name(ex)}", {"config": lines[-1], "message": str(ex)[:200]}))
+                        # the decision and the result must not depend on the memory layout of the float tensor
+                        if opt == "default":
+                            try:
+                                r2 = q.quantize_weight(xn, qt, axis, gs, None)
+                                e2 = f"ok {r2.qtype.name} {qmeta.axis_s(r2.axis)} {'none' if getattr(r2, '_group_size', None) is None else r2._group_size}"
+                                if e2 == e and not torch.equal(r2.dequantize(), r.dequantize()):
+                                    ctx.spec_failures.append(("C14:accepted-but-not-honoured:quantize_weight:layout-changes-values", {"config": lines[-1], "strides": list(xn.stride())}))
+                            except ValueError:
+                                e2 = "err ValueError"
+                            except Exception as ex:  # noqa
+                                e2 = "err " + exc_name(ex)
+                            if e2 != e:
+                                ctx.spec_failures.append((f"C14:layout-changes-the-decision:quantize_weight:{e2.split()[-1] if e2.startswith('err') else 'accepted'}",
+                                                          {"config": lines[-1], "strides": list(xn.stride()), "contiguous": e, "this_layout": e2}))
+                            ctx.count("quantize_weight:non-contiguous:" + e2.split()[0])
                         expect.append(e)
                         meta.append("quantize_weight")
                         ctx.evaluations += 1
